@@ -132,6 +132,8 @@ structure Obs where
   res : Res
   finApp : Bool
   finMet : Bool
+  /-- what was logged during start-up is still held back in the startup log buffer -/
+  finHeld : Bool
   reqs : List ReqRes
   rounds : List RRes
   deriving DecidableEq, Repr
